@@ -14,7 +14,7 @@
 From Coq Require Import List ZArith NArith Bool.
 From Verif Require Import Cmp VM.
 Import ListNotations.
-Open Scope N_scope.
+Local Open Scope N_scope.
 
 Definition blen (b : item) : N := N.of_nat (length b).
 
